@@ -263,10 +263,10 @@ func altValue(t *Type, v *Value, env *Env, o AltOpts) []Alt {
 				}
 				if keyAsString {
 					if len(chs) > 0 {
-						add(plus(a, arr, 2, 0, "dictionary-as-pair-array["+SafeTypeText(t)+"]", "number-as-string"))
+						add(plus(a, arr, 2, 0, "dictionary-as-pair-array["+dictSite(t)+"]", "number-as-string"))
 					}
 				} else {
-					add(plus(a, arr, 1, 0, "dictionary-as-pair-array["+SafeTypeText(t)+"]"))
+					add(plus(a, arr, 1, 0, "dictionary-as-pair-array["+dictSite(t)+"]"))
 				}
 			}
 		})
@@ -472,6 +472,14 @@ var dummyDef = func() *StructDef {
 	}
 	return d
 }()
+
+// dictSite names the generated reader template a dictionary type goes through: one per dictionary kind and key type.
+func dictSite(t *Type) string {
+	if t.Kind == KDict {
+		return "dictionary<*>"
+	}
+	return "dictionaryAny<" + SafeTypeText(t.Key) + ",*>"
+}
 
 // SafeTypeText prints a type expression without its declaration context (nat references print as f<i> / p<i>).
 func SafeTypeText(t *Type) string { return TypeText(t, dummyDef) }
